@@ -1668,6 +1668,9 @@ class Interp:
         finally:
             self.frames.pop()
             self.effects.pop('$detached', None)
+            for k_ in list(self.effects):
+                if any(e_.get('in') == '$detached' for e_ in self.effects[k_]):
+                    self.effects[k_] = [e_ for e_ in self.effects[k_] if e_.get('in') != '$detached']
 
     def apply(self, clo, args):
         """apply a closure term to argument terms"""
@@ -1780,6 +1783,22 @@ class Interp:
             self.accs[recv[1]]['entries'].append({'cond': self.pathcond(), 'val': v, 'loops': list(self.frame['loops']), 'line': e['line'],
                                                   'fn': self.frame['callee'], 'flat': (v[0] in ('star', 'reorder', 'acc')) if ts else True})
             return ('tuple', [])
+        if m == 'retain' and recv[0] in ('acc', 'star', 'reorder') and len(e['args']) == 1 and e['recv']['k'] == 'Path' and len(e['recv']['path']['segs']) == 1:
+            # `list.retain(|x| seen.insert(key(x)))` with a set created for the purpose: an order-preserving removal of every repeated key
+            clo = self.expr(e['args'][0], env)
+            if isinstance(clo, tuple) and clo and clo[0] == 'closure':
+                A = ('param', '$key', 'a')
+                try:
+                    r = self.apply_detached(clo, [A])
+                except Exception:
+                    r = None
+                if r is not None and r[0] == 't':
+                    r = r[1]
+                if r is not None and r[0] == 'mcall' and r[2] == 'insert' and len(r[3]) == 1 and r[1][0] == 'new' and r[1][1] in ('HashSet', 'BTreeSet') and \
+                        r[1][3] == tuple(l[0] for l in self.frame['loops']) and r[1][4] == self.frame['callee']:
+                    new = ('reorder', self.acc_view(recv), 'dedup_all_by_key', [clo, r[1]], self.pathcond())
+                    env.assign(e['recv']['path']['segs'][0], new)
+                    return ('tuple', [])
         if m in ('push', 'insert', 'extend', 'push_str', 'remove', 'clear', 'retain', 'update') or \
                 (m in self.LIST_MUTATORS and recv[0] in ('acc', 'star', 'reorder', 'tuple')):
             args = [self.expr(a, env) for a in e['args']]
